@@ -7,10 +7,18 @@ sys.path.insert(0, V)
 from vlib import core
 from checks import proofs
 out = {}
+idents = {}
 for i in range(1, 21):
     pid = 'C%02d' % i
     ctx = core.Ctx(pid)
     per = proofs.run_group(ctx, pid, lean=False, other_tiers=False)
     out[pid] = {f: len(obs) for f, (c, obs, exits) in per.items()}
+    # which decisive obligations exist (and discharge) on the unchanged tree: kind + text, hashed.  A decisive obligation that is
+    # not in this set is NEW (e.g. the hazard of an assert somebody added) - it never passed before, so its failure is not reported
+    # as a violation (checks/proofs.py)
+    idents.setdefault(pid, {})
+    for f, (c, obs, exits) in per.items():
+        idents[pid][f] = sorted({proofs.ob_key(o) for o in obs if o.kind in proofs.DECISIVE and o.verdict == 'proved'})
     print(pid, sum(out[pid].values()), 'obligations in', len(out[pid]), 'functions', 'violations:', len(ctx.violations))
 json.dump(out, open(os.path.join(V, 'baseline_obligations.json'), 'w'), indent=1, sort_keys=True)
+json.dump(idents, open(os.path.join(V, 'baseline_decisive.json'), 'w'), indent=0, sort_keys=True)
